@@ -3,6 +3,16 @@
 import json
 
 CHECKS = {
+    "C03": dict(level="other", tech="twin equality of effect decision trees built from typed HIR (path-sensitive abstract evaluation, helpers inlined)",
+                text="For every TypedNode / NeverFailedTypedNode / ParsableTypedNode impl in pest_typed and in a fixture that expands every "
+                     "exported rule macro (plus the default entry methods and rule::parse/check), the parse method and the check method "
+                     "have equal normal-form effect decision trees: same cursor/stack/tracker events with the same constants on every path, "
+                     "same guards and loop ranges, same returned cursor. Holds for every instantiation (generic code), hence every grammar/input; "
+                     "equal tracker events give the identical-error clause. Decides structure, not behaviour on inputs.",
+                note="Trusts the EDT evaluator's models of core items (Option, ?, for, array::from_fn, closures) and that generic children obey "
+                     "the same rule (established for all impls in the workspace by this rule; user impls out of scope). One reviewed exception: "
+                     "[T;N] parse twin's dead Err arm of Vec::try_into.",
+                ref="§4 C03; §3.3; Appendix A, D"),
     "C12": dict(level="translation_validation", tech="sibling normal-form equality of typed HIR (repo copy vs pest source)",
                 text="Translation validation: Position::{new,line_col,line_of,find_line_start,find_line_end,at_start,at_end,...} "
                      "are shown to be the same programs as pest's (typed-HIR normal forms equal), hence equal results for every "
